@@ -8,8 +8,21 @@ import (
 	"github.com/PapaCharlie/go-restli/v2/restlicodec"
 
 	"verif/mc/bind"
+	"verif/mc/ref/refjson"
 	"verif/mc/schema"
 )
+
+func refjsonParse(doc string) ([]string, error) {
+	d, err := refjson.ParseStrict([]byte(doc))
+	if err != nil {
+		return nil, err
+	}
+	o, ok := d.(*refjson.Obj)
+	if !ok {
+		return nil, fmt.Errorf("not an object")
+	}
+	return o.Keys, nil
+}
 
 // Reg and Ctor are filled by the emitted registry file.
 var Reg = map[string]reflect.Type{}
@@ -184,3 +197,12 @@ type panicError struct{ msg string }
 func (p *panicError) Error() string { return "panic: " + p.msg }
 
 func isPanic(err error) bool { _, ok := err.(*panicError); return ok }
+
+// parseJSONOrdered returns the top-level member names of a JSON object in document order.
+func parseJSONOrdered(doc string) ([]string, error) {
+	d, err := refjsonParse(doc)
+	if err != nil {
+		return nil, err
+	}
+	return d, nil
+}
